@@ -245,6 +245,10 @@ class SimOracle(object):
         if tm > self.time:
             self.end_of_instant(final=False)
             self.time = tm
+        elif tm < self.time:
+            # C01: the clock never decreases, whoever reads it (process, user event, dispatcher command)
+            self.viol("C01", "C01/clock-went-backwards", "a record at clock %r follows one at %r" % (tm, self.time))
+            self.time = tm
 
     # --------------------------------------------------------- snapshots --
     def on_snapshot(self, t):
@@ -348,6 +352,7 @@ class SimOracle(object):
                         if inflight:
                             cur.base, cur.n = g, 0
                             cur.completion = ("preempted-from", self.time, name)
+                        self.void_timers(p)
                         n = self.note(p, "poolpreempt", PREEMPTED, self.time, mandatory=True, src=name)
                         n.seq = self.evno
                         continue
@@ -439,6 +444,10 @@ class SimOracle(object):
                 self.viol("C13", "C13/satisfied-waiter-not-resumed/%s" % cur.oblig[1],
                           "p%d waits on %s with a predicate that was true when the condition was signalled (%s) "
                           "but was not resumed in that instant" % (p.pid, cur.obj, cur.oblig[1]))
+                if cur.oblig[1] == "after-drop":
+                    self.viol("C09", "C09/holdings-not-offered-to-waiters/cond",
+                              "p%d waits on %s (subscribed to what a process held when it ended in this instant) with a "
+                              "predicate that the release made true, but was not resumed" % (p.pid, cur.obj))
                 cur.oblig = None
             # C09: waiter of a process that ended in this instant
             if cur.completion is not None and cur.completion[0] == "procend" and cur.completion[1] == T:
@@ -528,6 +537,11 @@ class SimOracle(object):
     def on_U(self, t):
         k = int(t[4])
         u = self.uev.setdefault(k, {"state": "pending"})
+        if u["state"] != "pending":
+            self.viol("C01", "C01/user-event-ran-again", "user event %d executed although it was %s" % (k, u["state"]))
+        elif "time" in u and u["time"] != self.time:
+            self.viol("C01", "C01/user-event-at-wrong-time", "user event %d scheduled for %r ran with the clock at %r"
+                      % (k, u["time"], self.time))
         u["state"] = "executed"
         for p in self.procs:
             if self.alive(p) and p.cur is not None and p.cur.name == "wait_ev" and p.cur.args[0] == k:
@@ -676,13 +690,18 @@ class SimOracle(object):
         if name == "release":
             r = a[0]
             if self.holder.get(r) != p.pid:
-                self.viol("C05", "C05/release-of-foreign", "p%d releases %s which the model attributes to %s"
-                          % (p.pid, r, self.holder.get(r)))
-            self.holder[r] = None
+                # (trusting scenarios) a victim of a preemption whose notice never reached it - an interrupt
+                # overtook and cancelled it - releases what it believes it holds. The call must change
+                # nothing; what the library makes of it shows in the holder comparison after the event.
+                self.cls("release-by-unnotified-victim")
+            else:
+                self.holder[r] = None
             p.res.discard(r)
         elif name == "prel":
             pl, n = a[0], int(a[1])
-            p.pool[pl] = p.pool.get(pl, 0) - n
+            if p.pool.get(pl, 0) < n:
+                self.cls("prel-by-unnotified-victim")      # as above: gives back at most what it still holds
+            p.pool[pl] = max(0, p.pool.get(pl, 0) - n)
         elif name in ("ftimer_add", "ftimer_cancel", "ftimers_clear"):
             # the same operations on the timers of another process
             self.cls("foreign-" + name[1:])
@@ -718,6 +737,10 @@ class SimOracle(object):
             want = 1 if (n is not None and not n.delivered and not n.dead) else 0
             if n is not None and not n.mandatory and not n.delivered and not n.dead:
                 want = r           # an optional (voided) timer may or may not still be scheduled
+            if r == 0 and want == 1 and self.ppre_in_event and any(v > 0 for v in p.pool.values()):
+                # a pool preemption earlier in this event may have robbed p (known only at the snapshot)
+                self.cls("timer-cancel-after-possible-robbery")
+                want = 0
             if r != want:
                 self.viol("C04", "C04/timer-cancel-result", "p%d: timer_cancel(%d) returned %d, expected %d" % (p.pid, h, r, want))
             if n is not None:
@@ -871,7 +894,7 @@ class SimOracle(object):
     def on_G_after(self, t):
         cond, why, obj = t[4], t[5], t[6]
         T = self.time
-        side_needed = {"after-release": 0, "after-put": 0, "after-get": 1}[why]
+        side_needed = {"after-release": 0, "after-put": 0, "after-get": 1, "after-drop": 0}[why]
         ok = False
         for (c, o, s) in self.sc.links:
             if c == cond and s == side_needed and o == obj and self.link_active.get((c, o, s)):
@@ -885,10 +908,18 @@ class SimOracle(object):
             c = self.procs[int(pid)].cur
             if c is None or c.name != "cwait" or c.removed:
                 continue
+            if why == "after-drop":
+                # the truth was taken at the end of the event in which the holder ended; it is also the truth
+                # at the signal of that drop only for a predicate about the dropped object itself
+                objnames = list(self.sc.objs)
+                if not (c.args[1:2] and c.args[1] in ("3", "4") and int(c.args[2]) < len(objnames)
+                        and objnames[int(c.args[2])] == obj):
+                    continue
+                self.cls("cond-satisfied-by-drop-at-process-end")
             if not c.sat_seen.get(T):
                 c.sat_seen[T] = int(t[1])
             if c.oblig is None:
-                c.oblig = (T, "after-op")
+                c.oblig = (T, "after-drop" if why == "after-drop" else "after-op")
 
     # ............................................................ returns --
     def justify(self, p, sig):
@@ -1041,6 +1072,13 @@ class SimOracle(object):
                           "p%d (priority %d, waiting since %s, call #%d) was served on %s while p%d (same priority, waiting "
                           "since %s, call #%d) is still waiting" % (p.pid, p.prio, c.t, c.seq, c.obj, v.pid, vc.t, vc.seq))
 
+    def void_timers(self, victim):
+        """'timers ... stay armed until ... the process is interrupted, preempted or ends': the library clears
+        them at the moment of the preemption, the victim hears of it later in the instant"""
+        for n in victim.notes:
+            if not n.delivered and not n.dead and n.kind != "respreempt" and n.kind != "poolpreempt":
+                n.mandatory = False
+
     def ret_acquire(self, p, c, ret, outs, blocked, note):
         r = c.obj
         if ret == SUCCESS:
@@ -1051,6 +1089,7 @@ class SimOracle(object):
                     # eviction: the previous holder loses the resource and is told so
                     hp.res.discard(r)
                     self.note(hp, "respreempt", PREEMPTED, self.time, src=r)
+                    self.void_timers(hp)
                     self.cls("resource-preempted")
                 else:
                     self.viol("C05", "C05/two-holders/%s" % ("after-wait" if blocked else "immediate"),
